@@ -861,7 +861,7 @@ Section CompleteP.
   (* Theorem 5: pruning = filtering, for descendant-closed exclusions.  *)
 
   Definition desc_closed excl : Prop :=
-    forall a b, excl a = true -> is_valid a = true -> is_valid b = true ->
+    forall a b, a <> [SLASH] -> excl a = true -> is_valid a = true -> is_valid b = true ->
                 comp_prefix (comps a) (comps b) = true -> excl b = true.
 
   Lemma contents_prune excl t :
@@ -887,13 +887,15 @@ Section CompleteP.
         destruct (excl (append p (fst c))) eqn:Ex; cbn [negb].
         * symmetry. apply filter_nil. intros x Hx.
           destruct (contents_desc no_excl (snd c) _ x (Hsub c Hc) Hv Hx) as [Hvx Hpre].
-          rewrite (Hcl _ _ Ex Hv Hvx Hpre). reflexivity.
+          assert (Hnr : append p (fst c) <> [SLASH]).
+          { apply append_not_root. destruct Okc as [Hne _]. exact Hne. }
+          rewrite (Hcl _ _ Hnr Ex Hv Hvx Hpre). reflexivity.
         * apply IH; [exact Hc | apply Hsub; exact Hc | exact Hv].
   Qed.
 
   Theorem walk_prune_eq_filter excl t :
     WFtree t ->
-    (forall a b, excl a = true -> is_valid a = true -> is_valid b = true ->
+    (forall a b, a <> [SLASH] -> excl a = true -> is_valid a = true -> is_valid b = true ->
                  comp_prefix (comps a) (comps b) = true -> excl b = true) ->
     tl (walk_rec excl t)
     = filter (fun it => negb (excl (path it))) (tl (walk_rec (fun _ => false) t)).
@@ -1064,7 +1066,7 @@ Section Examples.
 
   Example ex_excl_closed : desc_closed ex_excl.
   Proof.
-    intros a b Ha _ _ Hab. unfold ex_excl in *. eapply comp_prefix_trans; eauto.
+    intros a b _ Ha _ _ Hab. unfold ex_excl in *. eapply comp_prefix_trans; eauto.
   Qed.
 
   Example ex_prune :
